@@ -10,7 +10,7 @@ Ev == Trace[l]
 IsEv(e) == l <= Len(Trace) /\ Ev.ev = e /\ l' = l + 1 /\ UNCHANGED rej
 
 Init == /\ l = 1 /\ rej = <<>> /\ file = <<>> /\ fileEnd = 0 /\ pos = 0 /\ blocked = FALSE /\ perr = "nil"
-        /\ faultable = FALSE /\ cutLen = -1 /\ open = FALSE /\ ranges = <<>> /\ got = 0 /\ ended = FALSE
+        /\ faultable = FALSE /\ cutLen = -1 /\ layoutOK = TRUE /\ open = FALSE /\ ranges = <<>> /\ got = 0 /\ ended = FALSE
 
 \* the logical range [from, to) of a chunk given as <<<<f,b>>, <<f,b>>>>
 RangeOf(c) == <<Logical(<<c[1][1], c[1][2]>>), Logical(<<c[2][1], c[2][2]>>)>>
@@ -26,7 +26,7 @@ LeftInRange(rs, i, j) == IF j < rs[i][2] - rs[i][1] THEN rs[i][2] - rs[i][1] - j
 
 Reset == /\ IsEv("T")
          /\ file' = Ev.file /\ fileEnd' = Ev.fileEnd /\ pos' = 0 /\ blocked' = TRUE /\ perr' = "nil"
-         /\ faultable' = FALSE /\ cutLen' = -1 /\ open' = TRUE
+         /\ faultable' = FALSE /\ cutLen' = -1 /\ layoutOK' = TRUE /\ open' = TRUE
          /\ ranges' = [i \in 1..Len(Ev.chunks) |->
                          LET c == Ev.chunks[i]
                              ix(o) == CHOOSE m \in 1..Len(Ev.file) : Ev.file[m][1] = o[1]
